@@ -37,7 +37,7 @@ def obligation_belongs(name, prop):
 
 
 def verify_one(args):
-    qual, prop, tier = args
+    qual, prop, tier, chunk, nchunks = args
     t0 = time.time()
     out = {'function': qual, 'obligations': [], 'error': None, 'wall_s': 0.0}
     try:
@@ -56,7 +56,9 @@ def verify_one(args):
             return out
         obs = [o for o in ex.obligations if obligation_belongs(o.name, prop)]
         known = load_known()
-        for ob in obs:
+        for obi, ob in enumerate(obs):
+            if obi % nchunks != chunk:
+                continue
             r = solve.check(ex.assumes[:ob.n_assumes], ob.guard, ob.cond, ob.name, ob.info)
             rec = {'name': ob.name, 'status': r.status, 'backend': r.backend, 'seconds': round(r.seconds, 4),
                    'info': ob.info, 'reason': r.reason}
@@ -142,11 +144,24 @@ def main(argv):
     quals = [q for q, c in REGISTRY.contracts.items() if prop in c.props and not c.trusted]
     if a.only:
         quals = [q for q in quals if a.only in q]
-    jobs = [(q, prop, a.tier) for q in quals]
+    jobs = []
+    for q in quals:
+        n = max(1, REGISTRY.get(q).chunks)
+        jobs.extend((q, prop, a.tier, k, n) for k in range(n))
     results = []
     if jobs:
         with multiprocessing.Pool(min(a.j, len(jobs))) as pool:
-            results = pool.map(verify_one, jobs, chunksize=1)
+            parts = pool.map(verify_one, jobs, chunksize=1)
+        merged = {}
+        for part in parts:
+            m = merged.get(part['function'])
+            if m is None:
+                merged[part['function']] = part
+            else:
+                m['obligations'].extend(part['obligations'])
+                m['wall_s'] = max(m['wall_s'], part['wall_s'])
+                m['error'] = m['error'] or part['error']
+        results = list(merged.values())
     extra_res = extra.run(prop, a.tier, seed)
     return report(prop, a.tier, seed, results, extra_res, t0)
 
